@@ -223,3 +223,20 @@ func DispatchFamily(depth int) []Subject {
 	rec(nil)
 	return out
 }
+
+// DispatchCoreForms is the subset used for the third hop of the thorough tier (one representative per mechanism).
+var DispatchCoreForms = []string{"static", "fvar", "closure", "mvalue", "iface", "generic", "deferred", "go", "goClosure", "fparam",
+	"ifaceTwo", "mapKeyField", "namedArrRange"}
+
+// DispatchFamilyCore3 = all sequences of <= 2 hops over all forms + all sequences of exactly 3 hops over the core forms.
+func DispatchFamilyCore3() []Subject {
+	out := DispatchFamily(2)
+	for _, a := range DispatchCoreForms {
+		for _, b := range DispatchCoreForms {
+			for _, c := range DispatchCoreForms {
+				out = append(out, DispatchProgram([]string{a, b, c}))
+			}
+		}
+	}
+	return out
+}
